@@ -28,6 +28,7 @@ Suppressions:
 
 import ast
 from collections.abc import Callable
+from contextlib import suppress
 from typing import Any, Protocol, TypeVar
 
 from src.core.base import BaseLintContext
@@ -159,6 +160,40 @@ def load_linter_config(
         # Fallback for config classes that don't support language parameter
         result_fallback = config_class.from_dict(config_dict)
         return result_fallback  # type: ignore[return-value]
+
+
+def matches_ignore_patterns(file_path: Any, patterns: Any, project_root: Any = None) -> bool:
+    """Check a file against the ``ignore`` glob patterns of a linter's configuration section.
+
+    Patterns are matched against the path inside the project, never against the directories
+    leading to the project.
+
+    Args:
+        file_path: Path of the file being linted (absolute or relative), or None
+        patterns: The section's ``ignore`` list (anything else is treated as empty)
+        project_root: Project root used to make an absolute file path project-relative
+
+    Returns:
+        True if the file matches one of the patterns
+    """
+    if not file_path or not isinstance(patterns, list) or not patterns:
+        return False
+    from pathlib import Path
+
+    from src.linter_config.pattern_utils import matches_pattern
+
+    path = Path(str(file_path))
+    if project_root and path.is_absolute():
+        with suppress(ValueError):
+            path = path.relative_to(Path(str(project_root)))
+    if path.is_absolute():
+        # Outside the project: only match whole trailing path segments, so that directory
+        # names leading to the file (e.g. a temp dir called test_xyz) cannot trigger a pattern.
+        return any(path.match(str(pattern)) for pattern in patterns)
+    path_str = path.as_posix()
+    return any(
+        matches_pattern(path_str, str(pattern)) or path.match(str(pattern)) for pattern in patterns
+    )
 
 
 def has_file_content(context: BaseLintContext) -> bool:
